@@ -45,6 +45,8 @@ func main() {
 		}
 		rep := runView(v, *seed, *n, *driver, *corpus)
 		writeReport(*out, rep)
+	case "probe":
+		probe()
 	case "exec":
 		// exec <view> <line...>: run the real code on one line (replay)
 		if len(os.Args) < 4 {
